@@ -2337,10 +2337,19 @@ impl Timestamp {
     ) -> Result<Timestamp, Error> {
         let (second, nanosecond) =
             rangeint::uncomposite!(its, c => (c.second, c.nanosecond));
-        Ok(Timestamp {
-            second: second.try_to_rint("unix-seconds")?,
-            nanosecond: nanosecond.to_rint(),
-        })
+        let second: UnixSeconds = second.try_to_rint("unix-seconds")?;
+        let nanosecond: FractionalNanosecond = nanosecond.to_rint();
+        // The minimum timestamp has no fractional part, so a negative
+        // fraction at the minimum second is below the minimum.
+        if second == UnixSeconds::MIN_SELF && nanosecond < C(0) {
+            return Err(Error::range(
+                "seconds and nanoseconds",
+                nanosecond,
+                0,
+                1_000_000_000,
+            ));
+        }
+        Ok(Timestamp { second, nanosecond })
     }
 
     #[inline]
